@@ -205,13 +205,35 @@ theorem meta_round_trip (cfg : ReadCfg) (op : Opts) (sk : Skel) (o : List SNode)
       metaGet r.props "units" = some (attrOf sk "units") ∧ metaGet r.props "id" = some (attrOf sk "id") ∧
       metaGet r.props "name" = some (attrOf sk "name") := by
   refine ⟨_, readBack_writeWith cfg .default op sk o, ?_, ?_, ?_⟩ <;>
-    simp [ofFile, hm, metaProps, metaGet, List.find?]
+    simp [ofFile, hm, metaProps, metaGet, List.find?, Gen.Swc.metaKeys]
 
 /-- Without a meta line (`write_meta=False`) nothing is restored. -/
 theorem no_meta_round_trip (cfg : ReadCfg) (op : Opts) (sk : Skel) (o : List SNode) :
     ∃ r, readBack cfg (writeWith .off op sk o) = some r ∧ r.props = [] := by
   refine ⟨_, readBack_writeWith cfg .off op sk o, ?_⟩
   simp [ofFile, metaProps]
+
+/-! ### obligations over the definitions regenerated from the current source (`Gen/Swc.lean`) -/
+
+/-- The writer selects, and the reader names, the seven SWC columns in the order `PointNo Label X Y Z Radius Parent`. -/
+theorem gen_columns : Gen.Swc.columnOrder = ["node_id", "label", "x", "y", "z", "radius", "parent_id"] ∧
+    Gen.Swc.nodeColumns = Gen.Swc.columnOrder := ⟨rfl, rfl⟩
+
+/-- The sort the model calls `sortByParent`; the new ids start at 1; a missing parent becomes -1. -/
+theorem gen_reindex : Gen.Swc.sortColumn = "parent_id" ∧ Gen.Swc.sortAscending = true ∧ Gen.Swc.firstId = 1 ∧
+    Gen.Swc.missingParent = -1 := ⟨rfl, rfl, rfl, rfl⟩
+
+/-- The radius column is written from the radius column, NaN filled with 0 (the model's `getD 0`). -/
+theorem gen_radius : Gen.Swc.radiusSource = "swc.radius" ∧ Gen.Swc.radiusFill = 0 := ⟨rfl, rfl⟩
+
+/-- The reader's default soma label is the code the writer gives the soma; labels are read as a category
+(never as floats); the label codes are pairwise distinct (so no rule masks another by accident). -/
+theorem gen_labels : Gen.Swc.readerSomaLabel = Gen.Swc.lblSoma ∧ Gen.Swc.readerLabelDtype = "category" ∧
+    [Gen.Swc.lblUndefined, Gen.Swc.lblSoma, Gen.Swc.lblBranch, Gen.Swc.lblEnd, Gen.Swc.lblPre, Gen.Swc.lblPost].Nodup :=
+  ⟨rfl, rfl, by decide⟩
+
+/-- `write_meta=True` writes id, name and units behind the prefix the reader looks for (`# meta:` case-insensitively). -/
+theorem gen_meta : Gen.Swc.metaKeys = ["id", "name", "units"] ∧ Gen.Swc.metaPrefix = "# Meta: " := ⟨rfl, rfl⟩
 
 /-! ### non-vacuity: concrete inputs meeting the hypotheses -/
 
